@@ -110,3 +110,53 @@ Proof. split; vm_compute; reflexivity. Qed.
 
 Example C07_ctr_sites_full_width_nonvacuous : ctr_width_of "Ctr128BE" = Some 128%N.
 Proof. apply (C07_ctr_sites_full_width "paseto-v1/src/core/pw_wrap.rs" "Ctr128BE"). vm_compute. tauto. Qed.
+
+(* ================= receiving direction (added after the first audit) ================= *)
+(* the blob is the SPECIFICATION's output (not the backend's wrap), of the expected size, and the backend model
+   returns the wrapped key; both backends of a version *)
+Example C07_spec_pie_blob_unwraps_v1_v3_nonvacuous :
+  length (spec_pieA toy (str "k3" ++ hdr_l) key32 secret64 n32) = 48 + 32 + 64 /\
+  pie_unwrap (v3_pie toy) hdr_l key32 (spec_pieA toy (str "k3" ++ hdr_l) key32 secret64 n32) = Ok secret64 /\
+  pie_unwrap (lc_pie toy) hdr_l key32 (spec_pieA toy (str "k3" ++ hdr_l) key32 secret64 n32) = Ok secret64 /\
+  pie_unwrap (pieA toy2 (str "k1") 128) (str ".secret-wrap.pie.") key32' (spec_pieA toy2 (str "k1" ++ str ".secret-wrap.pie.") key32' msg n32) = Ok msg.
+Proof.
+  split; [vm_compute; reflexivity|].
+  split; [exact (C07_spec_pie_blob_unwraps_v1_v3 toy toy_laws (str "k3") hdr_l key32 secret64 n32 eq_refl)|].
+  split; [exact (C07_spec_pie_blob_unwraps_v1_v3 toy toy_laws (str "k3") hdr_l key32 secret64 n32 eq_refl)|].
+  exact (C07_spec_pie_blob_unwraps_v1_v3 toy2 toy2_laws (str "k1") (str ".secret-wrap.pie.") key32' msg n32 eq_refl).
+Qed.
+(* the nonce-length hypothesis is used: a 31-byte "nonce" shifts the split and another key comes out *)
+Example C07_spec_pie_blob_unwraps_v1_v3_nonvacuous_hyp_used :
+  pie_unwrap (v3_pie toy) hdr_l key32 (spec_pieA toy (str "k3" ++ hdr_l) key32 secret64 (z 31)) <> Ok secret64.
+Proof. vm_compute. discriminate. Qed.
+
+Example C07_spec_pie_blob_unwraps_v2_v4_nonvacuous :
+  length (spec_pieB toy (str "k4" ++ hdr_l) key32 secret64 n32) = 32 + 32 + 64 /\
+  pie_unwrap (v4_pie toy) hdr_l key32 (spec_pieB toy (str "k4" ++ hdr_l) key32 secret64 n32) = Ok secret64 /\
+  pie_unwrap (na_pie toy) hdr_l key32 (spec_pieB toy (str "k4" ++ hdr_l) key32 secret64 n32) = Ok secret64 /\
+  pie_unwrap (pieB toy (str "k2")) hdr_l key32' (spec_pieB toy (str "k2" ++ hdr_l) key32' key32 (repeat xff 32)) = Ok key32.
+Proof.
+  split; [vm_compute; reflexivity|].
+  split; [exact (C07_spec_pie_blob_unwraps_v2_v4 toy toy_laws (str "k4") hdr_l key32 secret64 n32 eq_refl)|].
+  split; [exact (C07_spec_pie_blob_unwraps_v2_v4 toy toy_laws (str "k4") hdr_l key32 secret64 n32 eq_refl)|].
+  exact (C07_spec_pie_blob_unwraps_v2_v4 toy toy_laws (str "k2") hdr_l key32' key32 (repeat xff 32) eq_refl).
+Qed.
+Example C07_spec_pie_blob_unwraps_v2_v4_nonvacuous_hyp_used :
+  pie_unwrap (v4_pie toy) hdr_l key32 (spec_pieB toy (str "k4" ++ hdr_l) key32 secret64 (z 33)) <> Ok secret64.
+Proof. vm_compute. discriminate. Qed.
+
+Example C07_spec_pbkw_blob_unwraps_v1_v3_nonvacuous :
+  length (spec_pwA toy (str "k3" ++ hdr_pw) (str "pw") key32' (z 32) 100000 (repeat xff 16)) = 32 + 4 + 16 + 32 + 48 /\
+  pw_unwrap (lc_pw toy) hdr_pw (str "pw") (spec_pwA toy (str "k3" ++ hdr_pw) (str "pw") key32' (z 32) 100000 (repeat xff 16)) = Ok key32' /\
+  pw_unwrap (v3_pw toy) hdr_pw (str "pw") (spec_pwA toy (str "k3" ++ hdr_pw) (str "pw") key32' (z 32) 0 (repeat xff 16)) = Ok key32'.
+Proof.
+  split; [vm_compute; reflexivity|]. split.
+  - apply (C07_spec_pbkw_blob_unwraps_v1_v3 toy toy_laws (str "k3") true); [vm_compute; reflexivity|right; discriminate|reflexivity|reflexivity].
+  - apply (C07_spec_pbkw_blob_unwraps_v1_v3 toy toy_laws (str "k3") false); [vm_compute; reflexivity|left; reflexivity|reflexivity|reflexivity].
+Qed.
+(* the side conditions are sharp: aws-lc refuses a conforming blob with iteration count 0, and an iteration count
+   of 2^32 does not fit the 4-byte field (the blob then announces 0 iterations) *)
+Example C07_spec_pbkw_blob_unwraps_v1_v3_nonvacuous_hyps_used :
+  pw_unwrap (lc_pw toy) hdr_pw (str "pw") (spec_pwA toy (str "k3" ++ hdr_pw) (str "pw") key32' (z 32) 0 (repeat xff 16)) = Err InvalidKey /\
+  pw_unwrap (lc_pw toy) hdr_pw (str "pw") (spec_pwA toy (str "k3" ++ hdr_pw) (str "pw") key32' (z 32) (2 ^ 32) (repeat xff 16)) = Err InvalidKey.
+Proof. split; vm_compute; reflexivity. Qed.
